@@ -1,6 +1,11 @@
 (* eng_codec.ml — model side of engine `codec` (C17). *)
-open Model
+open BinNums
+open Datatypes
+open Base
 open Conv
+open Meta
+open Vecdb
+module L = Stdlib.List
 
 let meta_err = function
   | InvalidMetadataSize -> "InvalidMetadataSize" | EmptyMetadata -> "EmptyMetadata"
@@ -13,7 +18,7 @@ let show_res ferr fok = function
   | Err e -> "err " ^ ferr e
   | Panic -> "panic"
 
-let exec (t : string list) : string =
+let exec1 (t : string list) : string =
   match t with
   | ["meta_dec"; spec] ->
       show_res meta_err (fun m -> Printf.sprintf "%s %s %s %s" (string_of_n m.m_start) (string_of_n m.m_len)
@@ -38,7 +43,7 @@ let exec (t : string list) : string =
             (if page_is_raw p then 1 else 0) (string_of_n (page_values_count p)) (Z.to_string e))
         (page_from_bytes (spec_to_bytes spec))
   | ["page_enc"; s; b; v; raw] ->
-      let v = if raw = "1" then Z.add (Z.of_string v) (z_of_n rAW_FLAG) else Z.of_string v in
+      let v = if raw = "1" then Z.add (Z.of_string v) (z_of_n Consts.coq_RAW_FLAG) else Z.of_string v in
       "ok " ^ hex_of_bytes (page_to_bytes { p_start = n_of_string s; p_bytes = n_of_string b; p_values = n_of_z v })
   | ["num_dec"; w; spec] ->
       show_res verr string_of_n (num_from_bytes (nat_of_int (int_of_string w)) (spec_to_bytes spec))
@@ -48,9 +53,11 @@ let exec (t : string list) : string =
   | ["fill"; spec] ->
       show_res meta_err (fun slots ->
           if slots = [] then "-" else
-          String.concat " " (List.mapi (fun i o -> match o with
+          String.concat " " (L.mapi (fun i o -> match o with
             | None -> Printf.sprintf "%d:none" i
             | Some m -> Printf.sprintf "%d:%s:%s:%s:%s" i (string_of_n m.m_start) (string_of_n m.m_len)
                           (string_of_n m.m_reserved) (hex_of_bytes m.m_id)) slots))
         (fill_file (spec_to_bytes spec))
   | _ -> "err UnknownCase"
+
+let exec (t : string list) : string list = [exec1 t]
